@@ -349,9 +349,7 @@ Definition block_seqs (x : side) (evs : list event) : list nat :=
    CONTINUATION frames on the same stream and nothing else from that endpoint;
    stream frames name a stream; increments are positive; SETTINGS values are
    in range (MAX_FRAME_SIZE 2^14..2^24-1, INITIAL_WINDOW_SIZE <= 2^31-1). *)
-Definition setting_ok (p : N * N) : bool :=
-  (negb (N.eqb (fst p) 4) || N.leb (snd p) 2147483647)
-  && (negb (N.eqb (fst p) 5) || (N.leb 16384 (snd p) && N.leb (snd p) 16777215)).
+Definition setting_ok (p : N * N) : bool := setting_accept p.
 Definition rfc_frame_ok (open : option N) (f : frame) : bool :=
   match open with
   | Some s => match f with FCont k _ => N.eqb k s | _ => false end
